@@ -13,6 +13,7 @@ import (
 	"math/rand"
 	"os"
 	"path/filepath"
+	"strconv"
 	"strings"
 	"time"
 
@@ -167,6 +168,12 @@ func runRedisSeq(g *gateway, seq [][]string) (redisDesc, error) {
 		return d, err
 	}
 	defer cn.close()
+	err = runRedisOn(cn, &d, seq)
+	return d, err
+}
+
+// runRedisOn runs seq on an open connection and appends what it observes to d.
+func runRedisOn(cn *conn, d *redisDesc, seq [][]string) error {
 	for _, c := range seq {
 		args := make([][]byte, len(c))
 		hx := make([]string, len(c))
@@ -177,7 +184,7 @@ func runRedisSeq(g *gateway, seq [][]string) (redisDesc, error) {
 		now := time.Now().Unix()
 		rep, err := cn.do(args...)
 		if err != nil {
-			return d, fmt.Errorf("command %q: %v (partial reply %q)", c, err, rep)
+			return fmt.Errorf("command %q: %v (partial reply %q)", c, err, rep)
 		}
 		d.Cmds = append(d.Cmds, redisCmd{Now: now, Args: hx})
 		d.Replies = append(d.Replies, hex.EncodeToString(rep))
@@ -186,7 +193,106 @@ func runRedisSeq(g *gateway, seq [][]string) (redisDesc, error) {
 			break
 		}
 	}
-	return d, nil
+	return nil
+}
+
+// runTTLCases: keys with a real, short time to live. Phase 1 of every case
+// (SET with EX/PX/EXAT/PXAT three seconds ahead, then INCR-family or
+// overwriting commands, then observation: the value must still be there) runs
+// at once; after one common wait until every deadline has certainly passed,
+// phase 2 observes the key again (GET/EXISTS/MGET, INCR from scratch). The
+// clock value of each command is recorded, so the model applies the same
+// expiry arithmetic; no command is issued within a second of a deadline.
+func runTTLCases(gateways map[string]*gateway, seed int64, emit func(redisDesc)) error {
+	type open struct {
+		cn      *conn
+		d       redisDesc
+		key     string
+		backend string
+	}
+	var opens []*open
+	defer func() {
+		for _, o := range opens {
+			o.cn.close()
+		}
+	}()
+	const ttl = 3
+	mids := [][][]string{
+		{},              // plain expiry
+		{{"INCR", "K"}}, // the TTL must survive INCR
+		{{"DECR", "K"}},
+		{{"INCRBY", "K", "5"}},
+		{{"DECRBY", "K", "2"}},
+		{{"INCR", "K"}, {"INCR", "K"}, {"DECR", "K"}},
+		{{"INCR", "K"}, {"MGET", "K"}, {"INCRBY", "K", "10"}},
+		{{"SET", "K", "9"}}, // SET / MSET discard the TTL: the key must stay
+		{{"MSET", "K", "9"}},
+		{{"SET", "K", "9", "XX"}},
+		{{"INCR", "K"}, {"SET", "K", "9"}},
+		{{"SET", "K", "9"}, {"INCR", "K"}},
+		{{"DEL", "K"}, {"INCR", "K"}}, // recreated without TTL
+		{{"SET", "K", "9", "NX"}, {"INCR", "K"}},
+	}
+	n := 0
+	var latest int64
+	for _, backend := range []string{"embedded", "raft"} {
+		for oi, opt := range []string{"EX", "PX", "EXAT", "PXAT"} {
+			for mi, mid := range mids {
+				if (mi+oi)%2 == 1 && mi > 6 {
+					continue // keep the run short: half of the overwrite variants per option
+				}
+				n++
+				key := fmt.Sprintf("t%d.%d:k", seed, n)
+				cn, err := gateways[backend].dial()
+				if err != nil {
+					return err
+				}
+				o := &open{cn: cn, key: key, backend: backend}
+				opens = append(opens, o)
+				now := time.Now().Unix()
+				var exp string
+				switch opt {
+				case "EX":
+					exp = strconv.Itoa(ttl)
+				case "PX":
+					exp = strconv.Itoa(ttl * 1000)
+				case "EXAT":
+					exp = strconv.FormatInt(now+ttl, 10)
+				default:
+					exp = strconv.FormatInt((now+ttl)*1000, 10)
+				}
+				if d := now + ttl + 2; d > latest {
+					latest = d
+				}
+				seq := [][]string{{"SET", key, "41", opt, exp}}
+				for _, m := range mid {
+					c := append([]string(nil), m...)
+					for i := range c {
+						if c[i] == "K" {
+							c[i] = key
+						}
+					}
+					seq = append(seq, c)
+				}
+				seq = append(seq, []string{"GET", key}, []string{"EXISTS", key})
+				if err := runRedisOn(cn, &o.d, seq); err != nil {
+					return err
+				}
+			}
+		}
+	}
+	for time.Now().Unix() < latest {
+		time.Sleep(100 * time.Millisecond)
+	}
+	for _, o := range opens {
+		seq := [][]string{{"GET", o.key}, {"EXISTS", o.key}, {"MGET", o.key}, {"INCR", o.key}, {"GET", o.key}}
+		if err := runRedisOn(o.cn, &o.d, seq); err != nil {
+			return err
+		}
+		o.d.Backend = o.backend
+		emit(o.d)
+	}
+	return nil
 }
 
 func printable(b []byte) bool {
@@ -245,7 +351,7 @@ func redisCaseTerm(d redisDesc) string {
 
 func runRedis(c *corr.Ctx) error {
 	c.Meta("run_module", "RunRedis")
-	c.Meta("rule", "two deployments of the same binary, alternating: embedded backend (real DB) and raft backend (backend_raft.go over the hook's in-process MVCC fake of the raft client, sequential clients only); 100 directed sequences per run (SET with past/future expiry, then MSET/SET/SET XX/SET NX/INCR/DEL/INCRBY on that key, then GET/EXISTS/INCR/DEL/MGET); random single-connection command sequences (5-40 commands + final MGET/EXISTS/GET of every key) over 4 keys with a per-case prefix; 20 values (empty, white space, int64 limits, non-integers, +5, 007, CRLF); SET with NX/XX/EX/PX/EXAT/PXAT/KEEPTTL/bogus options in random order and case, expiry arguments in the far past/future, zero, negative, non-integer, overflowing; DEL/EXISTS/MGET/MSET with repeated keys and odd arity; INCR/DECR/INCRBY/DECRBY with 15 deltas incl. -2^63; PING/ECHO with 0-2 arguments; unknown commands; QUIT. Raw reply bytes of every command compared. non-trivial = at least one write command succeeded; distinct by Gallina term")
+	c.Meta("rule", "two deployments of the same binary, alternating: embedded backend (real DB) and raft backend (backend_raft.go over the hook's in-process MVCC fake of the raft client, sequential clients only); real-clock TTL cases on both backends (SET k 41 EX/PX/EXAT/PXAT three seconds ahead; INCR/DECR/INCRBY/DECRBY, SET/MSET/SET XX/DEL+INCR on it; GET/EXISTS before the deadline; one common wait; GET/EXISTS/MGET/INCR/GET after it: a TTL kept by the INCR family makes the key absent, a TTL discarded by SET/MSET leaves it); 100 directed sequences per run (SET with past/future expiry, then MSET/SET/SET XX/SET NX/INCR/DEL/INCRBY on that key, then GET/EXISTS/INCR/DEL/MGET); random single-connection command sequences (5-40 commands + final MGET/EXISTS/GET of every key) over 4 keys with a per-case prefix; 20 values (empty, white space, int64 limits, non-integers, +5, 007, CRLF); SET with NX/XX/EX/PX/EXAT/PXAT/KEEPTTL/bogus options in random order and case, expiry arguments in the far past/future, zero, negative, non-integer, overflowing; DEL/EXISTS/MGET/MSET with repeated keys and odd arity; INCR/DECR/INCRBY/DECRBY with 15 deltas incl. -2^63; PING/ECHO with 0-2 arguments; unknown commands; QUIT. Raw reply bytes of every command compared. non-trivial = at least one write command succeeded; distinct by Gallina term")
 	bin, err := buildGateway(c.Out)
 	if err != nil {
 		return err
@@ -333,6 +439,11 @@ func runRedis(c *corr.Ctx) error {
 			emit(nd)
 		}
 		return nil
+	}
+
+	// keys with a real three-second time to live, observed before and after it
+	if err := runTTLCases(gateways, c.Seed, func(d redisDesc) { c.Count("ttl_real_clock"); emit(d) }); err != nil {
+		return err
 	}
 
 	// directed sequences (both backends): overwrite / delete / increment a key
